@@ -573,6 +573,17 @@ func (t *tr) specCall(c *ast.CallExpr, sc *specCtx) Term {
 			return tFalse
 		}
 		return t.spec(c.Args[0], sc.inOld())
+	case "at_head": // at_head(e): e evaluated at the head of the current iteration of the loop whose step clause this is
+		if !need(1) {
+			return tFalse
+		}
+		henv, ok := t.loopHeadEnv[sc.loop]
+		if !ok {
+			return t.specErr(sc, "at_head used outside a loop step clause")
+		}
+		hn := *sc
+		hn.cur = henv
+		return t.spec(c.Args[0], &hn)
 	case "at_loop": // at_loop(k, e): e evaluated in the state in which loop k was (last) entered from outside
 		if !need(2) {
 			return tFalse
